@@ -142,7 +142,8 @@ claim("C19", "exploration",
       "every refused call re-checked at every node, plus long random interleavings: after each call the full published state "
       "(drift_state, waiting flag, labels held, margin density, counters, reference statistics) is compared with the model; "
       "refused calls must raise and change nothing; reference statistics are recomputed from the logged folds, which must "
-      "partition the reference rows.  Exhaustive within the bounds, sampled beyond.",
+      "partition the reference rows; `refstats/` cases summarise references with repeated rows under a classifier refitted per fold.  "
+      "Exhaustive within the bounds, sampled beyond.",
       TB + " A deterministic threshold classifier and margin function stand for the user's model.", "DESIGN.md 4 (C19)")
 
 claim("C20", "exploration",
@@ -182,11 +183,13 @@ claim("C02", "exploration",
 claim("C16", "exploration",
       "runtime monitoring: twin differential - the same outcome sequence presented under re-encoded labels / container shapes / "
       "agreement-preserving pair substitutions, and with junk in documented-unused arguments; full output traces compared",
-      "For DDM / EDDM / STEPD / ADWINAccuracy the canonical run is compared after every sample with runs under 16 encodings "
-      "(ints, big ints, strings with common prefix, bools, floats, numpy scalars, five classes with varying pairs, 1-element "
-      "list / ndarray / Series / 2-d array), for LinearFourRates under the index-valid encodings of 0/1; all 14 zoo detectors are "
-      "run with and without junk objects in their documented-unused arguments under the same seed schedule.  Sampled.",
-      TB, "DESIGN.md 4 (C16)")
+      "For DDM / EDDM / STEPD / ADWINAccuracy the canonical run is compared after every sample with runs under some 40 encodings "
+      "(ints, big ints, strings with common prefix, number-like strings, bools, floats, numpy scalars, five classes with varying pairs, "
+      "1-element list / ndarray / Series / 2-d array, the two labels wrapped independently, row-slice Series, label buffers refilled "
+      "in place), for LinearFourRates under the index-valid encodings of 0/1; all 14 zoo detectors are "
+      "run with and without junk objects in their documented-unused arguments under the same seed schedule; `fresh/` cases run in a "
+      "fresh interpreter, where another detector sees the classes in another encoding first.  Sampled.",
+      TB, "DESIGN.md 4 (C16), 9.5")
 claim("C17", "exploration",
       "runtime monitoring: twin differential over ordered threshold values on identical histories and seed schedules; first-drift "
       "indices and warning index sets compared (exact relation)",
@@ -235,8 +238,9 @@ claim("C15", "fault_enumeration",
       "runtime monitoring with fault injection: the caller overwrites / re-uses what it passed after every call position (alias "
       "twin against a run on private copies); byte-level argument snapshots around every call; icontract postconditions on "
       "injector calls",
-      "For the 14 zoo detectors x seven input layouts (ndarray C / Fortran / strided view, single- and mixed-dtype DataFrame, "
-      "re-used one-row ndarray / DataFrame buffer; 1-element label arrays / lists / Series): run A hands over the caller's objects "
+      "For the 14 zoo detectors x fourteen input layouts (ndarray C / Fortran / strided view / read-only view / 0-d / 1-d view, Series, "
+      "single- and mixed-dtype DataFrame, one re-used ndarray / read-only / DataFrame buffer per history - rows for streaming, whole "
+      "batches for batch detectors; 1-element label arrays / lists / Series): run A hands over the caller's objects "
       "and overwrites them in place after every call (reference batches, test batches, single observations), run B uses private "
       "copies; every output must be equal and no argument may change across a call.  All eight injectors are re-run on further "
       "layouts (Fortran, strided, mixed-dtype, indexed frames) under postconditions: new object, same container type, input "
